@@ -19,10 +19,10 @@ def run(ctx, replay=None):
     if not q:
         runs += [({'ResName = "preempt1"': 'ResName = "prio1"', "NProc = 2": "NProc = 3", "MaxOps = 3": "MaxOps = 2", "MaxEv = 12": "MaxEv = 15"}, "prio1 3x2"),
                  ({'ResName = "preempt1"': 'ResName = "preempt2"', "NProc = 2": "NProc = 3", "MaxOps = 3": "MaxOps = 2", "MaxEv = 12": "MaxEv = 15"}, "preempt2 3x2"),
-                 ({'ResName = "preempt1"': 'ResName = "res2"', "Prios = {0, 1}": "Prios = {0}", "NProc = 2": "NProc = 3", "MaxEv = 12": "MaxEv = 14"}, "res2 3x3"),
-                 ({"MaxOps = 3": "MaxOps = 4", "MaxEv = 12": "MaxEv = 13", "Delays = {1}": "Delays = {0, 1}"}, "preempt1 2x4")]
+                 ({'ResName = "preempt1"': 'ResName = "res2"', "Prios = {0, 1}": "Prios = {0}", "NProc = 2": "NProc = 3", "MaxOps = 3": "MaxOps = 2", "MaxEv = 12": "MaxEv = 15"}, "res2 3x2"),
+                 ({"Delays = {1}": "Delays = {0, 1}"}, "preempt1 2x3 delays 0,1")]
     kernlib.mc_replay_many(ctx, [{"cfgname": "ResMC_c06.cfg", "over": over, "label": "ResMC/" + label} for over, label in runs],
-                           parallel=3, module="ResMC", limit=15000 if q else None)
+                           parallel=3, module="ResMC", limit=15000 if q else 150000)
     reslib.gen_histories(ctx, 1200 if q else 20000, "res", "generated-resources")
     return ctx.finish(RULE, assumptions=["each process holds or awaits at most one request per resource and leaves its with-block before ending (the property's quantifier)"])
 
